@@ -158,6 +158,15 @@ def _check_samples_other_geometry(ctx, case, key, model, exp, cg, gid, lay, stat
 
 
 def check_ident_case(ctx, ident, base, stats=None):
+    # construction refused = violation ident/construct/<key>/construction_refused (modelgeom_real.construct), not a machinery failure
+    from cuqiverif.modelgeom_real import ConstructionRefused, report_refusal
+    try:
+        return _check_ident_case_body(ctx, ident, base, stats)
+    except ConstructionRefused as r:
+        report_refusal(ctx, dict(base, kind="ident", gid=ident["gid"], lay=ident.get("lay", "f64c")), "ident/construct", r)
+
+
+def _check_ident_case_body(ctx, ident, base, stats=None):
     import cuqi
     from cuqi.array import CUQIarray
     from cuqi.samples import Samples
